@@ -71,7 +71,14 @@ class Ctx:
         for rid, r in self.rules.items():
             if r.get("undecided"):
                 continue        # the rule met an idiom it cannot read: its instance count says nothing
-            if r["instances"] < r["floor"]:
+            if 0 < r["instances"] < r["floor"]:
+                # fewer instances than on the reviewed tree, but not none: the code was restructured (two sites
+                # merged into one, a table replaced an if-chain ...). The instances found were judged; what the
+                # rule no longer finds is undecided, not a violation.
+                r["undecided"] = r.get("undecided", 0) + 1
+                self.obligations.append({"rule": rid, "key": "%s|undecided:floor" % rid, "ok": True, "undecided": True,
+                                         "msg": "undecided: rule matched %d instances, %d on the reviewed tree" % (r["instances"], r["floor"]), "where": ""})
+            elif r["instances"] < r["floor"]:
                 self.obligations.append({"rule": rid, "key": "%s|floor" % rid, "ok": False,
                                          "msg": "rule matched %d instances, floor is %d (a rule that matches nothing passes vacuously)" % (r["instances"], r["floor"]),
                                          "where": ""})
